@@ -1,5 +1,7 @@
 """C04 - the Python stream decoder returns exactly the valid messages in a byte stream."""
 import itertools
+import struct
+import zlib
 import json
 
 import fv
@@ -55,6 +57,29 @@ def cases(ctx, budget):
     # large messages (1-5 kB): valid, failing the CRC, false headers announcing that much - next to ordinary tokens
     for _ in range(max(6, budget // 10)):
         out.append(gen.stream(rng, rng.choice([2, 3, 4]), 'LKMLKMVUZJ'))
+    # a message followed by near-copies of itself (retransmissions, a repeated header with other content): the exact copy,
+    # the copy with one payload bit changed under the unchanged header (CRC field included), the copy with a changed
+    # payload and its own CRC, the cut copy - directly after the original, after junk, and after another message
+    for rep in range(max(8, budget // 8)):
+        seqs = {'n': rng.choice([0, 7])}
+        m0 = gen.token(rng, rng.choice('VVUGZL' if rep % 4 == 3 else 'VVUG'), seqs)
+        parts, kinds = [m0], 'A'
+        for _ in range(rng.choice([1, 1, 2, 3])):
+            v = rng.choice('pppexy')
+            c = bytearray(m0)
+            if v == 'p' and len(c) > 24:
+                c[rng.randrange(24, len(c))] ^= 1 << rng.randrange(8)
+            elif v == 'x' and len(c) > 24:
+                c[rng.randrange(24, len(c))] ^= 1 << rng.randrange(8)
+                c[4:8] = struct.pack('<I', zlib.crc32(bytes(c[8:])))
+            elif v == 'y':
+                c = c[:rng.randrange(2, len(c))]
+            sep = rng.choice(['', '', 'J', 'V', 'S'])
+            if sep:
+                parts.append(gen.token(rng, sep, seqs))
+            parts.append(bytes(c))
+            kinds += sep + v
+        out.append((b''.join(parts), 'near' + kinds))
     # malformed stream: pure random, all sync bytes, lengths at the limits
     for n in (0, 1, 23, 24, 25, 100):
         out.append((bytes(rng.randrange(256) for _ in range(n)), 'rand%d' % n))
